@@ -175,11 +175,21 @@ var zxCorpus = []zxQuery{
 	{"SELECT a FROM (SELECT a FROM (SELECT a FROM t GROUP BY x, y) GROUP BY x, y) GROUP BY y", false},
 	{"SELECT a FROM (SELECT a FROM (SELECT a, b FROM t GROUP BY x, y) GROUP BY x) GROUP BY x", false},
 	{"SELECT a FROM (SELECT a FROM t GROUP BY x, y) GROUP BY y", false},
+	// two output fields with the same expression (the leader's input and output columns coincide)
+	{"SELECT a, a AS total FROM t GROUP BY y", false},
+	// a unary math field re-aggregated on the leader
+	{"SELECT LOG2(a) AS l FROM t GROUP BY y", false},
+	// LIMIT two FROM-levels deep
+	{"SELECT a FROM (SELECT a FROM (SELECT a FROM t GROUP BY x, y ORDER BY x, y, _time LIMIT 1) GROUP BY x, y) GROUP BY x, y", false},
+	// an IN-sub-query inside a FROM-sub-query
+	{"SELECT a FROM (SELECT a FROM t WHERE y IN (SELECT y FROM t WHERE x = 1) GROUP BY x, y)", false},
+	// GROUP BY inside a WHERE sub-query of a query that is re-grouped on the leader
+	{"SELECT a FROM t WHERE y IN (SELECT y FROM t GROUP BY y) GROUP BY x", false},
 }
 
 var zxPartitionKeys = [][]string{{"x"}, {"x", "y"}, nil}
 
-//zx:harness prop=C11+C10 id=C11.V tier=quick mode=real shard=q:27,keys:3 R=2 NP=2 quick.ny=2 quick.nperiods=1 paths=20000 thorough.R=3 thorough.NP=3 thorough.ny=3 thorough.nperiods=2 thorough.shard=q:27,keys:3,np:3
+//zx:harness prop=C11+C10 id=C11.V tier=quick mode=real shard=q:32,keys:3 R=2 NP=2 quick.ny=2 quick.nperiods=1 paths=20000 thorough.R=3 thorough.NP=3 thorough.ny=3 thorough.nperiods=2 thorough.shard=q:32,keys:3,np:3
 func zxC11Validate() {
 	q := zxCorpus[vrtShape("q", len(zxCorpus))]
 	partitionBy := zxPartitionKeys[vrtShape("keys", len(zxPartitionKeys))]
